@@ -30,7 +30,7 @@ REGISTRY = dict(
           "Finding F8 (EveryNTimesteps after a counter reset) is a Refuted theorem and is reproduced on the implementation."),
     note=("Trusted: Coq 8.16.1 kernel (vm_compute, no native_compute), translate/py2coq.py + specs/callbacks.py, harness/c13.py, Python/numpy/torch/gymnasium. "
           "Modelled, not verified: evaluate_policy inside EvalCallback (its mean reward is an oracle input; most runs stub it, some run the real one), file writing of checkpoints, "
-          "StopTrainingOnRewardThreshold / StopTrainingOnNoModelImprovement / ProgressBarCallback (not modelled). All C13 theorems are closed under the global context."),
+          "ProgressBarCallback / LogEveryNTimesteps (not modelled); forwarding for ALL histories is proved for CallbackList paths, the children of EveryNTimesteps / EvalCallback have one-step theorems plus the all-history cadence of their parent. All C13 theorems are closed under the global context."),
     technique="machine-checked proof in Coq (induction over loop fuel and over callback trees) + regenerated-fragment interface lemmas + differential trace correspondence",
 )
 
@@ -578,7 +578,8 @@ def oracle(case, impl):
                     lb = info["last_before"].get(i, info["last_before"].get(str(i), 0))
                     # F8 class, precisely: the trigger time kept from an earlier learn() lies in the future of the
                     # (reset) counter when this learn() starts
-                    stale = ci > 0 and lb > tr[0][1]
+                    first_stretch = (marks[1] - marks[0]) >= n + ne and all(marks[q + 1] - marks[q] < n + ne for q in range(1, len(marks) - 1))
+                    stale = ci > 0 and lb > tr[0][1] and first_stretch    # only the stretch from learn() start up to the first trigger / the end of the call
                     probs.append((F8_SIG if stale else "oracle-everyN-starved",
                                   f"{tag}: EveryNTimesteps(n={n}) node {i} let {max(marks[q + 1] - marks[q] for q in range(len(marks) - 1))} timesteps pass without firing "
                                   f"(fired at {fired}, last_time_trigger was {lb} when learn() started at num_timesteps {tr[0][1]})"))
@@ -855,7 +856,7 @@ def main():
     chk.assumptions += [
         "evaluate_policy inside EvalCallback is an oracle (stubbed in most runs, real in some); checkpoint file contents are not inspected (C09)",
         "the second update_locals of on-policy collect_rollouts (same env step, before rollout-end) is dropped from the compared trace: it is idempotent on every callback's state",
-        "StopTrainingOnRewardThreshold, StopTrainingOnNoModelImprovement, ProgressBarCallback, LogEveryNTimesteps are not modelled",
+        "ProgressBarCallback and LogEveryNTimesteps are not modelled; cadence theorems are about positive frequencies (save_freq / eval_freq / n_steps >= 1): a zero frequency raises ZeroDivisionError in the code and is never generated; evaluation means are an oracle list that the harness makes long enough",
     ]
     return chk.finish()
 
